@@ -232,7 +232,7 @@ def check(pid, tier, seed):
         # ---- direction B: behaviours of the small-scope model executed by the real contracts --------
         if any(m == 'MC_Pool' for m, _ in spec.get('mc', [])):
             kinds = ['NN', 'NC', 'CC'] if tier == 'thorough' else [['NN', 'NC', 'CC'][int(pid[1:]) % 3]]
-            num, depth = (1500, 8) if tier == 'thorough' else (160, 7)
+            num, depth = (1500, 8) if tier == 'thorough' else (64, 7)
             scs = []
             for k in kinds:
                 cfg = mc_pool_cfg(k, tier, full=True).replace('INVARIANT C20_State\n', '').replace('PROPERTY StepProp\n', '').replace('EXPORT = FALSE', 'EXPORT = TRUE')
